@@ -70,6 +70,7 @@ class Interface(object):
         self.classes = {}
         self.imports = {}
         self.service_method_map = {}
+        self.method_key_aliases = {}
         self.method_id_map = {}
         self.nsmap = {}
         self.prefmap = {}
@@ -114,6 +115,7 @@ class Interface(object):
         self.classes = {}
         self.imports = {self.get_tns(): set()}
         self.service_method_map = {}
+        self.method_key_aliases = {}
         self.method_id_map = {}
         self.nsmap = dict(namespace.NSMAP)
         self.prefmap = dict(namespace.PREFMAP)
@@ -291,6 +293,16 @@ class Interface(object):
                                                                      method_key)
 
         self.method_id_map[key] = method
+
+        # the request message can be declared in another namespace than the
+        # application's (_in_message_name='{ns}name'): the qualified name of
+        # its element, which is what the interface document tells clients to
+        # send, names the method as well.
+        in_message = method.in_message
+        in_ns = in_message.Attributes.sub_ns or in_message.get_namespace()
+        if isinstance(in_ns, six.string_types) and in_ns != self.app.tns:
+            self.method_key_aliases[u'{%s}%s' % (in_ns,
+                                in_message.get_element_name())] = method_key
 
         val = self.service_method_map.get(method_key, None)
         if val is None:
